@@ -14,6 +14,7 @@ package main
 
 import (
 	"bytes"
+	"encoding/binary"
 	"fmt"
 	"image"
 	"image/color"
@@ -211,6 +212,22 @@ func c15Anim(c *Ctx, rng *Rand, lossless bool, nframes int, w, h int, icc, exif,
 		c.Violate("written-file-rejected", "demuxer rejects the animation encoder's output", replay)
 		return
 	}
+	// the other readers of this module must accept the file as well (container.Parser behind GetFeatures /
+	// DecodeConfig / Decode checks the RIFF size against the data, the demuxer is more lenient)
+	if _, ferr := webp.GetFeatures(bytes.NewReader(data)); ferr != nil {
+		c.Violate("written-file-rejected", "GetFeatures rejects the animation encoder's output ("+ferr.Error()+")", replay)
+	}
+	if _, cerr2 := webp.DecodeConfig(bytes.NewReader(data)); cerr2 != nil {
+		c.Violate("written-file-rejected", "DecodeConfig rejects the animation encoder's output ("+cerr2.Error()+")", replay)
+	}
+	if _, derr3 := webp.Decode(bytes.NewReader(data)); derr3 != nil {
+		c.Violate("written-file-rejected", "Decode rejects the animation encoder's output ("+derr3.Error()+")", replay)
+	}
+	if pl, pp := safeParse(data); pp.ErrClass != 0 {
+		c.Violate("written-file-rejected", "container.Parser rejects the animation encoder's output: "+pl, replay)
+	} else if binary.LittleEndian.Uint32(data[4:8]) != uint32(len(data)-8) || len(data)%2 != 0 {
+		c.Violate("written-file-rejected", fmt.Sprintf("RIFF size field %d does not describe the %d bytes written (or the file length is odd)", binary.LittleEndian.Uint32(data[4:8]), len(data)), replay)
+	}
 	// the muxer path treats a non-nil blob (even empty) as present
 	for _, q := range []struct {
 		n   string
@@ -265,6 +282,65 @@ func c15Anim(c *Ctx, rng *Rand, lossless bool, nframes int, w, h int, icc, exif,
 	}
 }
 
+// c15Boundary: the 100 MB metadata cap (validateConfig's maxEncoderMetadataSize on the way in,
+// container.MaxMetadataSize on the way back).  Direct evaluation only (a 100 MB file is not run through
+// the extracted model): whatever Encode accepts must be read back byte for byte by the demuxer and be
+// accepted by GetFeatures / the container parser; a refusal must not leave partial output.
+func c15Boundary(c *Ctx, lossless bool, which string, n int) {
+	c.D.Evaluations++
+	img := image.NewNRGBA(image.Rect(0, 0, 4, 3))
+	for i := range img.Pix {
+		img.Pix[i] = byte(40 + i*5)
+		if i%4 == 3 {
+			img.Pix[i] = 255
+		}
+	}
+	o := webp.DefaultOptions()
+	o.Lossless = lossless
+	b := make([]byte, n)
+	for i := 0; i < n; i += 4093 {
+		b[i] = byte(i>>3) | 1
+	}
+	b[n-1] = 0xA5
+	var id uint32
+	switch which {
+	case "ICC":
+		o.ICC, id = b, mux.FourCCICCP
+	case "EXIF":
+		o.EXIF, id = b, mux.FourCCEXIF
+	default:
+		o.XMP, id = b, mux.FourCCXMP
+	}
+	replay := map[string]any{"kind": "metadata-size-boundary", "field": which, "len": n, "lossless": lossless}
+	var out bytes.Buffer
+	err := webp.Encode(&out, img, o)
+	tag := fmt.Sprintf("boundary:%s:len=100MB%+d:lossless=%v", which, n-100*1024*1024, lossless)
+	if err != nil {
+		c.Count(tag + ":refused")
+		if out.Len() != 0 {
+			c.Violate("refused-encode-leaves-output", fmt.Sprintf("Encode refused the %s blob but wrote %d bytes", which, out.Len()), replay)
+		}
+		return
+	}
+	c.Count(tag + ":accepted")
+	c.Nontrivial(tag)
+	data := out.Bytes()
+	d, derr := mux.NewDemuxer(data)
+	if derr != nil {
+		c.Violate("written-file-rejected", "demuxer rejects the file Encode wrote ("+derr.Error()+")", replay)
+		return
+	}
+	if got, gerr := d.GetChunk(id); gerr != nil || !bytes.Equal(got, b) {
+		c.Violate("metadata-not-byte-exact", which+" of boundary size read back by chunk id differs from the blob given to Encode", replay)
+	}
+	if _, ferr := webp.GetFeatures(bytes.NewReader(data)); ferr != nil {
+		c.Violate("written-file-rejected", "GetFeatures rejects the file Encode wrote ("+ferr.Error()+")", replay)
+	}
+	if _, derr2 := webp.Decode(bytes.NewReader(data)); derr2 != nil {
+		c.Violate("written-file-rejected", "Decode rejects the file Encode wrote ("+derr2.Error()+")", replay)
+	}
+}
+
 func nrgbaDigest(img image.Image) string {
 	b := img.Bounds()
 	n := image.NewNRGBA(image.Rect(0, 0, b.Dx(), b.Dy()))
@@ -315,8 +391,36 @@ func c15Sources(rng *Rand, w, h int) []c15Source {
 		big.Pix[i] = byte(rng.U64())
 	}
 	sub := big.SubImage(image.Rect(2, 1, 2+w, 1+h))
+	// picture types without a fast path in the encoders, with bounds that do not start at (0,0): SubImage
+	// results whose surroundings differ from their content, so an import that forgets Bounds().Min shows
+	subRect := image.Rect(2, 1, 2+w, 1+h)
+	bigR := image.Rect(0, 0, w+4, h+3)
+	bg := image.NewGray(bigR)
+	bg16 := image.NewGray16(bigR)
+	bp := image.NewPaletted(bigR, pal)
+	b64 := image.NewNRGBA64(bigR)
+	brgba := image.NewRGBA(bigR)
+	by := image.NewYCbCr(bigR, image.YCbCrSubsampleRatio444)
+	for y := 0; y < h+3; y++ {
+		for x := 0; x < w+4; x++ {
+			v := uint8(17 + x*29 + y*53)
+			bg.SetGray(x, y, color.Gray{v})
+			bg16.SetGray16(x, y, color.Gray16{uint16(v)<<8 | uint16(x)})
+			bp.SetColorIndex(x, y, uint8((2*x+3*y+1)%len(pal)))
+			a := alphas[(x+3*y)%len(alphas)]
+			b64.SetNRGBA64(x, y, color.NRGBA64{uint16(v) << 8, uint16(x*4000 + 77), uint16(y * 5000), uint16(a)<<8 | uint16(a)})
+			brgba.SetRGBA(x, y, color.RGBA{uint8(int(v) * int(a) / 255), uint8(int(x*20) * int(a) / 255), 0, a})
+			by.Y[by.YOffset(x, y)] = v
+			by.Cb[by.COffset(x, y)] = uint8(90 + 7*x)
+			by.Cr[by.COffset(x, y)] = uint8(160 - 9*y)
+		}
+	}
 	return []c15Source{{"nrgba", n}, {"rgba-premul", r}, {"nrgba-subimage", sub}, {"gray", g}, {"paletted", pi},
-		{"wrapped-nrgba", c15Wrap{n}}, {"wrapped-rgba", c15Wrap{r}}}
+		{"wrapped-nrgba", c15Wrap{n}}, {"wrapped-rgba", c15Wrap{r}},
+		{"gray-subimage", bg.SubImage(subRect)}, {"gray16-subimage", bg16.SubImage(subRect)},
+		{"paletted-subimage", bp.SubImage(subRect)}, {"nrgba64-subimage", b64.SubImage(subRect)},
+		{"rgba-subimage", brgba.SubImage(subRect)}, {"ycbcr-subimage", by.SubImage(subRect)},
+		{"wrapped-nrgba-subimage", c15Wrap{sub}}}
 }
 
 func main() {
@@ -324,7 +428,7 @@ func main() {
 		c.D.Rule = "blobs {nil, empty, 1 byte, odd, even, chunk-header look-alikes, \"RIFF\", 64 KB, 64 KB+1} for ICC x EXIF x XMP (all 8 presence subsets with every blob in each position, plus random triples) x stills {lossy, lossless, lossy+alpha raw/compressed} and animations {1, 3 frames x lossless/lossy}; non-trivial = distinct (kind, blob triple, parities of all chunk payloads)"
 		c.D.Notes = append(c.D.Notes,
 			"correspondence: bytes written by webp.Encode vs WriterModel.write_riff / encode_lossless_container applied to the encoder's real bitstream (opaque blob); the model line also carries ParserSpec.riff_wf, spec_get_chunk for the three ids and ParserModel.parse of the written bytes, compared with mux.Demuxer.GetChunk and container.NewParser on the Go bytes; AnimEncoder.Close's selection vs WriterModel.anim_close on the two real candidate files",
-			"the 100 MB metadata cap boundary is not exercised in the quick tier")
+			"the 100 MB metadata cap: Encode with a blob of exactly 100 MB and of 100 MB + 1 byte is evaluated directly (accepted => read back byte for byte and accepted by GetFeatures/Decode; refused => no output); these files are not run through the extracted model")
 		rng := c.Rng.Fork()
 		blobs := c15Blobs(rng)
 		small := blobs[:8]
@@ -397,6 +501,18 @@ func main() {
 						}
 					}
 				}
+			}
+		}
+		// the 100 MB cap, exactly at and one byte above (direct evaluation)
+		{
+			const cap100 = 100 * 1024 * 1024
+			c15Boundary(c, false, "ICC", cap100)
+			c15Boundary(c, true, "XMP", cap100+1)
+			if c.Thorough() {
+				c15Boundary(c, true, "ICC", cap100)
+				c15Boundary(c, false, "EXIF", cap100)
+				c15Boundary(c, false, "EXIF", cap100+1)
+				c15Boundary(c, false, "ICC", cap100+1)
 			}
 		}
 		// animations
